@@ -38,9 +38,20 @@ def run_mutants(pid, only=None, log=sys.stderr):
         for m in muts:
             if only and m["name"] not in only:
                 continue
-            edits = m["edits"]
+            edits = m.get("edits", [])
             backups = {}
             stale = False
+            patch = os.path.join(VERIF, m["patch"]) if m.get("patch") else None
+            if patch:
+                # a stored seeded change (seeded/<id>/patch.diff) replayed as a mutant
+                if subprocess.run(["patch", "-p1", "--dry-run", "-s", "-f", "-i", patch], cwd=scratch, stdout=subprocess.DEVNULL, stderr=subprocess.DEVNULL).returncode != 0:
+                    results.append({"name": m["name"], "status": "stale", "detail": "stored patch no longer applies to the current tree"})
+                    continue
+                touched = [l[6:].strip() for l in open(patch) if l.startswith("+++ b/")]
+                for f in touched:
+                    p = os.path.join(scratch, f)
+                    backups[p] = open(p).read() if os.path.exists(p) else None
+                subprocess.check_call(["patch", "-p1", "-s", "-f", "-i", patch], cwd=scratch, stdout=subprocess.DEVNULL)
             for e in edits:
                 p = os.path.join(scratch, e["file"])
                 s = open(p).read()
@@ -73,7 +84,12 @@ def run_mutants(pid, only=None, log=sys.stderr):
             results.append({"name": m["name"], "status": st, "expect": m["expect"], "detail": (hit[0][:300] if hit else out[-400:])})
             print(f"[selftest {pid}] {m['name']}: {st}", file=log)
             for p, s in backups.items():
-                open(p, "w").write(s)
+                if s is None:
+                    os.remove(p)
+                else:
+                    open(p, "w").write(s)
+            for junk in [os.path.join(dp, f) for dp, _, fs in os.walk(scratch) for f in fs if f.endswith(".orig") or f.endswith(".rej")]:
+                os.remove(junk)
     finally:
         shutil.rmtree(scratch, ignore_errors=True)
     return results
